@@ -82,8 +82,10 @@ package tacquito
 //@ func (h *Header) UnmarshalBinary(data []byte) (err error)
 //@   requires h != nil
 //@   modifies *h
-//@   ensures[C04] err == nil ==> valid.Header(*h)
-//@   ensures[C04] len(data) < 12 ==> err != nil
+//@   ensures[C04] (err == nil) == (len(data) >= 12 && valid.Header(*h))
+//@   ensures[C01,C04] len(data) >= 12 ==> h.Version.MajorVersion == data[0] div 16 && h.Version.MinorVersion == data[0] mod 16
+//@        && h.Type == data[1] && h.SeqNo == data[2] && h.SessionID == u32at(data, 4) && h.Length == u32at(data, 8)
+//@        && h.Flags == (data[2] == 2 ? data[3] - (data[3] div 4) mod 2 * 4 + 4 : data[3])
 //@   also
 //@   ghost f Header
 //@   requires wire.Header(f, data) && valid.Header(f)
@@ -183,3 +185,229 @@ package tacquito
 //@   ghost f AcctReply
 //@   requires wire.AcctReply(f, data) && valid.AcctReply(f) && fits.AcctReply(f)
 //@   ensures[C01] err == nil && *a == f
+
+// ---------------------------------------------------------------------------
+// packet.go
+// ---------------------------------------------------------------------------
+
+//@ func (p *Packet) MarshalBinary() (res []byte, err error)
+//@   requires p != nil
+//@   ensures[C02] err == nil ==> p.Header != nil && p.Body != nil && valid.Header(*p.Header)
+//@   ensures[C02] err == nil ==> p.Header.Length == len(p.Body)
+//@   ensures[C01] err == nil ==> wire.Packet(*p.Header, p.Body, res)
+//@   ensures err != nil ==> res == nil
+//@   ensures fresh(res)
+
+//@ func (p *Packet) UnmarshalBinary(v []byte) (err error)
+//@   requires p != nil
+//@   modifies *p
+//@   ensures[C04] err == nil ==> p.Header != nil && valid.Header(*p.Header)
+//@   ensures[C04] err == nil ==> len(p.Body) == p.Header.Length && within(p.Body, v[12:])
+//@   ensures[C04] len(v) < 12 ==> err != nil
+//@   also
+//@   ghost h Header
+//@   ghost body []byte
+//@   requires wire.Packet(h, body, v) && valid.Header(h) && h.Length == len(body)
+//@   ensures[C01] err == nil && p.Header != nil
+//@   ensures[C01] p.Header.Version == h.Version && p.Header.Type == h.Type && p.Header.SeqNo == h.SeqNo && p.Header.SessionID == h.SessionID && p.Header.Length == h.Length
+//@   ensures[C01] h.SeqNo != 2 ==> p.Header.Flags == h.Flags
+//@   ensures[C01] len(p.Body) == len(body) && (forall i int :: 0 <= i && i < len(body) ==> p.Body[i] == body[i])
+
+// ---------------------------------------------------------------------------
+// authorize.go
+// ---------------------------------------------------------------------------
+// In range loops `rangeindex` is the index of the last completed iteration
+// (-1 before the first), as in go/ssa.
+
+//@ func (a *AuthorRequest) Validate() (err error)
+//@   requires a != nil
+//@   ensures[C02,C04] (err == nil) == valid.AuthorRequest(*a)
+//@   loop 2 invariant -1 <= rangeindex && rangeindex < len(a.Args)
+//@   loop 2 invariant forall j int :: 0 <= j && j <= rangeindex ==> validArg(a.Args[j])
+
+//@ func (a AuthorRequest) Len() (n int)
+//@   ensures n == len(a.User) + len(a.Port) + len(a.RemAddr) + sumLen(a.Args, len(a.Args))
+//@   loop 1 invariant -1 <= rangeindex && rangeindex < len(a.Args)
+//@   loop 1 invariant sum == len(a.User) + len(a.Port) + len(a.RemAddr) + sumLen(a.Args, rangeindex + 1)
+
+//@ func (a *AuthorRequest) MarshalBinary() (res []byte, err error)
+//@   requires a != nil
+//@   ensures[C02] (err == nil) == (valid.AuthorRequest(*a) && fits.AuthorRequest(*a))
+//@   ensures[C01] err == nil ==> wire.AuthorRequest(*a, res)
+//@   ensures err != nil ==> res == nil
+//@   loop 1 invariant -1 <= rangeindex && rangeindex < len(a.Args)
+//@   loop 1 invariant len(buf) == 8 + rangeindex + 1
+//@   loop 1 invariant buf[0] == a.Method && buf[1] == a.PrivLvl && buf[2] == a.Type && buf[3] == a.Service
+//@   loop 1 invariant buf[4] == len(a.User) mod 256 && buf[5] == len(a.Port) mod 256 && buf[6] == len(a.RemAddr) mod 256 && buf[7] == len(a.Args) mod 256
+//@   loop 1 invariant forall j int :: 0 <= j && j <= rangeindex ==> buf[8 + j] == len(a.Args[j]) mod 256
+//@   loop 2 invariant -1 <= rangeindex && rangeindex < len(a.Args)
+//@   loop 2 invariant len(buf) == 8 + len(a.Args) + len(a.User) + len(a.Port) + len(a.RemAddr) + sumLen(a.Args, rangeindex + 1)
+//@   loop 2 invariant buf[0] == a.Method && buf[1] == a.PrivLvl && buf[2] == a.Type && buf[3] == a.Service
+//@   loop 2 invariant buf[4] == len(a.User) mod 256 && buf[5] == len(a.Port) mod 256 && buf[6] == len(a.RemAddr) mod 256 && buf[7] == len(a.Args) mod 256
+//@   loop 2 invariant forall j int :: 0 <= j && j < len(a.Args) ==> buf[8 + j] == len(a.Args[j]) mod 256
+//@   loop 2 invariant fieldAt(buf, 8 + len(a.Args), a.User) && fieldAt(buf, 8 + len(a.Args) + len(a.User), a.Port)
+//@        && fieldAt(buf, 8 + len(a.Args) + len(a.User) + len(a.Port), a.RemAddr)
+//@   loop 2 invariant forall j int :: 0 <= j && j <= rangeindex ==> sumLen(a.Args, j) + len(a.Args[j]) <= sumLen(a.Args, rangeindex + 1)
+//@   loop 2 invariant forall j int :: 0 <= j && j <= rangeindex ==>
+//@        fieldAt(buf, 8 + len(a.Args) + len(a.User) + len(a.Port) + len(a.RemAddr) + sumLen(a.Args, j), a.Args[j])
+
+//@ func (a *AuthorRequest) UnmarshalBinary(data []byte) (err error)
+//@   requires a != nil
+//@   modifies *a
+//@   ensures[C04] err == nil ==> valid.AuthorRequest(*a) && fits.AuthorRequest(*a)
+//@   ensures[C04] err == nil ==> inside(a.User, data) && inside(a.Port, data) && inside(a.RemAddr, data)
+//@        && (forall k int :: 0 <= k && k < len(a.Args) ==> inside(a.Args[k], data))
+//@   ensures[C04] len(data) < 8 ==> err != nil
+//@   also
+//@   ghost f AuthorRequest
+//@   requires wire.AuthorRequest(f, data) && valid.AuthorRequest(f) && fits.AuthorRequest(f)
+//@   ensures[C01] err == nil
+//@   ensures[C01] a.Method == f.Method && a.PrivLvl == f.PrivLvl && a.Type == f.Type && a.Service == f.Service
+//@   ensures[C01] a.User == f.User && a.Port == f.Port && a.RemAddr == f.RemAddr
+//@   ensures[C01] len(a.Args) == len(f.Args) && (forall k int :: 0 <= k && k < len(f.Args) ==> len(a.Args[k]) == len(f.Args[k]))
+//@   ensures[C01] forall k int, i int :: 0 <= k && k < len(f.Args) && 0 <= i && i < len(f.Args[k]) ==> a.Args[k][i] == f.Args[k][i]
+//@   loop 1 invariant 0 <= i && i <= argCnt && len(argLens) == i
+//@   loop 1 invariant buf == data[min(8 + i, len(data)):]
+//@   loop 1 invariant forall j int :: 0 <= j && j < i ==> argLens[j] == (8 + j < len(data) ? data[8 + j] : 0)
+//@   loop 1 invariant totalArgLen == sumInts(argLens, i) && 0 <= totalArgLen && totalArgLen <= 255 * i
+//@   loop 1 invariant[case2] forall j int :: 0 <= j && j <= i ==> sumInts(argLens, j) == sumLen(f.Args, j)
+//@   loop 1 invariant[case2] forall j int :: 0 <= j && j < i ==> argLens[j] == len(f.Args[j])
+//@   loop 2 invariant -1 <= rangeindex && rangeindex < len(argLens)
+//@   loop 2 invariant len(a.Args) == rangeindex + 1
+//@   loop 2 invariant buf == data[min(len(data), 8 + argCnt + userLen + portLen + remAddrLen + sumInts(argLens, rangeindex + 1)):]
+//@   loop 2 invariant forall j int :: 0 <= j && j <= rangeindex ==>
+//@        window(a.Args[j], data, min(len(data), 8 + argCnt + userLen + portLen + remAddrLen + sumInts(argLens, j)),
+//@               min(argLens[j], len(data) - min(len(data), 8 + argCnt + userLen + portLen + remAddrLen + sumInts(argLens, j))))
+//@   loop 2 invariant[case2] forall j int :: 0 <= j && j <= rangeindex ==>
+//@        window(a.Args[j], data, 8 + len(f.Args) + len(f.User) + len(f.Port) + len(f.RemAddr) + sumLen(f.Args, j), len(f.Args[j]))
+//@   loop 2 invariant[case2] sumLen(a.Args, rangeindex + 1) == sumLen(f.Args, rangeindex + 1)
+
+//@ func (a *AuthorReply) Validate() (err error)
+//@   requires a != nil
+//@   ensures[C02,C04] (err == nil) == valid.AuthorReply(*a)
+//@   loop 2 invariant -1 <= rangeindex && rangeindex < len(a.Args)
+//@   loop 2 invariant forall j int :: 0 <= j && j <= rangeindex ==> validArg(a.Args[j])
+
+//@ func (a AuthorReply) Len() (n int)
+//@   ensures n == len(a.ServerMsg) + len(a.Data) + sumLen(a.Args, len(a.Args))
+//@   loop 1 invariant -1 <= rangeindex && rangeindex < len(a.Args)
+//@   loop 1 invariant sum == len(a.ServerMsg) + len(a.Data) + sumLen(a.Args, rangeindex + 1)
+
+//@ func (a *AuthorReply) MarshalBinary() (res []byte, err error)
+//@   requires a != nil
+//@   ensures[C02] (err == nil) == (valid.AuthorReply(*a) && fits.AuthorReply(*a))
+//@   ensures[C01] err == nil ==> wire.AuthorReply(*a, res)
+//@   ensures err != nil ==> res == nil
+//@   loop 1 invariant -1 <= rangeindex && rangeindex < len(a.Args)
+//@   loop 1 invariant len(buf) == 6 + rangeindex + 1
+//@   loop 1 invariant buf[0] == a.Status && buf[1] == len(a.Args) mod 256
+//@   loop 1 invariant buf[2] == (len(a.ServerMsg) div 256) mod 256 && buf[3] == len(a.ServerMsg) mod 256
+//@   loop 1 invariant buf[4] == (len(a.Data) div 256) mod 256 && buf[5] == len(a.Data) mod 256
+//@   loop 1 invariant forall j int :: 0 <= j && j <= rangeindex ==> buf[6 + j] == len(a.Args[j]) mod 256
+//@   loop 2 invariant -1 <= rangeindex && rangeindex < len(a.Args)
+//@   loop 2 invariant len(buf) == 6 + len(a.Args) + len(a.ServerMsg) + len(a.Data) + sumLen(a.Args, rangeindex + 1)
+//@   loop 2 invariant buf[0] == a.Status && buf[1] == len(a.Args) mod 256
+//@   loop 2 invariant buf[2] == (len(a.ServerMsg) div 256) mod 256 && buf[3] == len(a.ServerMsg) mod 256
+//@   loop 2 invariant buf[4] == (len(a.Data) div 256) mod 256 && buf[5] == len(a.Data) mod 256
+//@   loop 2 invariant forall j int :: 0 <= j && j < len(a.Args) ==> buf[6 + j] == len(a.Args[j]) mod 256
+//@   loop 2 invariant fieldAt(buf, 6 + len(a.Args), a.ServerMsg) && fieldAt(buf, 6 + len(a.Args) + len(a.ServerMsg), a.Data)
+//@   loop 2 invariant forall j int :: 0 <= j && j <= rangeindex ==> sumLen(a.Args, j) + len(a.Args[j]) <= sumLen(a.Args, rangeindex + 1)
+//@   loop 2 invariant forall j int :: 0 <= j && j <= rangeindex ==>
+//@        fieldAt(buf, 6 + len(a.Args) + len(a.ServerMsg) + len(a.Data) + sumLen(a.Args, j), a.Args[j])
+
+//@ func (a *AuthorReply) UnmarshalBinary(data []byte) (err error)
+//@   requires a != nil
+//@   modifies *a
+//@   ensures[C04] err == nil ==> valid.AuthorReply(*a) && fits.AuthorReply(*a)
+//@   ensures[C04] err == nil ==> inside(a.ServerMsg, data) && inside(a.Data, data)
+//@        && (forall k int :: 0 <= k && k < len(a.Args) ==> inside(a.Args[k], data))
+//@   ensures[C04] len(data) < 6 ==> err != nil
+//@   also
+//@   ghost f AuthorReply
+//@   requires wire.AuthorReply(f, data) && valid.AuthorReply(f) && fits.AuthorReply(f)
+//@   ensures[C01] err == nil
+//@   ensures[C01] a.Status == f.Status && a.ServerMsg == f.ServerMsg && a.Data == f.Data
+//@   ensures[C01] len(a.Args) == len(f.Args) && (forall k int :: 0 <= k && k < len(f.Args) ==> len(a.Args[k]) == len(f.Args[k]))
+//@   ensures[C01] forall k int, i int :: 0 <= k && k < len(f.Args) && 0 <= i && i < len(f.Args[k]) ==> a.Args[k][i] == f.Args[k][i]
+//@   loop 1 invariant 0 <= i && i <= argCnt && len(argLens) == i
+//@   loop 1 invariant buf == data[min(6 + i, len(data)):]
+//@   loop 1 invariant forall j int :: 0 <= j && j < i ==> argLens[j] == (6 + j < len(data) ? data[6 + j] : 0)
+//@   loop 1 invariant totalArgLen == sumInts(argLens, i) && 0 <= totalArgLen && totalArgLen <= 255 * i
+//@   loop 1 invariant[case2] forall j int :: 0 <= j && j <= i ==> sumInts(argLens, j) == sumLen(f.Args, j)
+//@   loop 1 invariant[case2] forall j int :: 0 <= j && j < i ==> argLens[j] == len(f.Args[j])
+//@   loop 2 invariant -1 <= rangeindex && rangeindex < len(argLens)
+//@   loop 2 invariant len(a.Args) == rangeindex + 1
+//@   loop 2 invariant buf == data[min(len(data), 6 + argCnt + serverMsgLen + dataLen + sumInts(argLens, rangeindex + 1)):]
+//@   loop 2 invariant forall j int :: 0 <= j && j <= rangeindex ==>
+//@        window(a.Args[j], data, min(len(data), 6 + argCnt + serverMsgLen + dataLen + sumInts(argLens, j)),
+//@               min(argLens[j], len(data) - min(len(data), 6 + argCnt + serverMsgLen + dataLen + sumInts(argLens, j))))
+//@   loop 2 invariant[case2] forall j int :: 0 <= j && j <= rangeindex ==>
+//@        window(a.Args[j], data, 6 + len(f.Args) + len(f.ServerMsg) + len(f.Data) + sumLen(f.Args, j), len(f.Args[j]))
+//@   loop 2 invariant[case2] sumLen(a.Args, rangeindex + 1) == sumLen(f.Args, rangeindex + 1)
+
+// ---------------------------------------------------------------------------
+// accounting.go (request)
+// ---------------------------------------------------------------------------
+
+//@ func (a *AcctRequest) Validate() (err error)
+//@   requires a != nil
+//@   ensures[C02,C04] (err == nil) == valid.AcctRequest(*a)
+//@   loop 2 invariant -1 <= rangeindex && rangeindex < len(a.Args)
+//@   loop 2 invariant forall j int :: 0 <= j && j <= rangeindex ==> validAcctArg(a.Args[j])
+
+//@ func (a AcctRequest) Len() (n int)
+//@   ensures n == len(a.User) + len(a.Port) + len(a.RemAddr) + sumLen(a.Args, len(a.Args))
+//@   loop 1 invariant -1 <= rangeindex && rangeindex < len(a.Args)
+//@   loop 1 invariant sum == len(a.User) + len(a.Port) + len(a.RemAddr) + sumLen(a.Args, rangeindex + 1)
+
+//@ func (a *AcctRequest) MarshalBinary() (res []byte, err error)
+//@   requires a != nil
+//@   ensures[C02] (err == nil) == (valid.AcctRequest(*a) && fits.AcctRequest(*a))
+//@   ensures[C01] err == nil ==> wire.AcctRequest(*a, res)
+//@   ensures err != nil ==> res == nil
+//@   loop 1 invariant -1 <= rangeindex && rangeindex < len(a.Args)
+//@   loop 1 invariant len(buf) == 9 + rangeindex + 1
+//@   loop 1 invariant buf[0] == a.Flags && buf[1] == a.Method && buf[2] == a.PrivLvl && buf[3] == a.Type && buf[4] == a.Service
+//@   loop 1 invariant buf[5] == len(a.User) mod 256 && buf[6] == len(a.Port) mod 256 && buf[7] == len(a.RemAddr) mod 256 && buf[8] == len(a.Args) mod 256
+//@   loop 1 invariant forall j int :: 0 <= j && j <= rangeindex ==> buf[9 + j] == len(a.Args[j]) mod 256
+//@   loop 2 invariant -1 <= rangeindex && rangeindex < len(a.Args)
+//@   loop 2 invariant len(buf) == 9 + len(a.Args) + len(a.User) + len(a.Port) + len(a.RemAddr) + sumLen(a.Args, rangeindex + 1)
+//@   loop 2 invariant buf[0] == a.Flags && buf[1] == a.Method && buf[2] == a.PrivLvl && buf[3] == a.Type && buf[4] == a.Service
+//@   loop 2 invariant buf[5] == len(a.User) mod 256 && buf[6] == len(a.Port) mod 256 && buf[7] == len(a.RemAddr) mod 256 && buf[8] == len(a.Args) mod 256
+//@   loop 2 invariant forall j int :: 0 <= j && j < len(a.Args) ==> buf[9 + j] == len(a.Args[j]) mod 256
+//@   loop 2 invariant fieldAt(buf, 9 + len(a.Args), a.User) && fieldAt(buf, 9 + len(a.Args) + len(a.User), a.Port)
+//@        && fieldAt(buf, 9 + len(a.Args) + len(a.User) + len(a.Port), a.RemAddr)
+//@   loop 2 invariant forall j int :: 0 <= j && j <= rangeindex ==> sumLen(a.Args, j) + len(a.Args[j]) <= sumLen(a.Args, rangeindex + 1)
+//@   loop 2 invariant forall j int :: 0 <= j && j <= rangeindex ==>
+//@        fieldAt(buf, 9 + len(a.Args) + len(a.User) + len(a.Port) + len(a.RemAddr) + sumLen(a.Args, j), a.Args[j])
+
+//@ func (a *AcctRequest) UnmarshalBinary(data []byte) (err error)
+//@   requires a != nil
+//@   modifies *a
+//@   ensures[C04] err == nil ==> valid.AcctRequest(*a) && fits.AcctRequest(*a)
+//@   ensures[C04] err == nil ==> inside(a.User, data) && inside(a.Port, data) && inside(a.RemAddr, data)
+//@        && (forall k int :: 0 <= k && k < len(a.Args) ==> inside(a.Args[k], data))
+//@   ensures[C04] len(data) < 9 ==> err != nil
+//@   also
+//@   ghost f AcctRequest
+//@   requires wire.AcctRequest(f, data) && valid.AcctRequest(f) && fits.AcctRequest(f)
+//@   ensures[C01] err == nil
+//@   ensures[C01] a.Flags == f.Flags && a.Method == f.Method && a.PrivLvl == f.PrivLvl && a.Type == f.Type && a.Service == f.Service
+//@   ensures[C01] a.User == f.User && a.Port == f.Port && a.RemAddr == f.RemAddr
+//@   ensures[C01] len(a.Args) == len(f.Args) && (forall k int :: 0 <= k && k < len(f.Args) ==> len(a.Args[k]) == len(f.Args[k]))
+//@   ensures[C01] forall k int, i int :: 0 <= k && k < len(f.Args) && 0 <= i && i < len(f.Args[k]) ==> a.Args[k][i] == f.Args[k][i]
+//@   loop 1 invariant 0 <= i && i <= argCnt && len(argLens) == i
+//@   loop 1 invariant buf == data[min(9 + i, len(data)):]
+//@   loop 1 invariant forall j int :: 0 <= j && j < i ==> argLens[j] == (9 + j < len(data) ? data[9 + j] : 0)
+//@   loop 1 invariant totalArgLen == sumInts(argLens, i) && 0 <= totalArgLen && totalArgLen <= 255 * i
+//@   loop 1 invariant[case2] forall j int :: 0 <= j && j <= i ==> sumInts(argLens, j) == sumLen(f.Args, j)
+//@   loop 1 invariant[case2] forall j int :: 0 <= j && j < i ==> argLens[j] == len(f.Args[j])
+//@   loop 2 invariant -1 <= rangeindex && rangeindex < len(argLens)
+//@   loop 2 invariant len(a.Args) == rangeindex + 1
+//@   loop 2 invariant buf == data[min(len(data), 9 + argCnt + userLen + portLen + remAddrLen + sumInts(argLens, rangeindex + 1)):]
+//@   loop 2 invariant forall j int :: 0 <= j && j <= rangeindex ==>
+//@        window(a.Args[j], data, min(len(data), 9 + argCnt + userLen + portLen + remAddrLen + sumInts(argLens, j)),
+//@               min(argLens[j], len(data) - min(len(data), 9 + argCnt + userLen + portLen + remAddrLen + sumInts(argLens, j))))
+//@   loop 2 invariant[case2] forall j int :: 0 <= j && j <= rangeindex ==>
+//@        window(a.Args[j], data, 9 + len(f.Args) + len(f.User) + len(f.Port) + len(f.RemAddr) + sumLen(f.Args, j), len(f.Args[j]))
+//@   loop 2 invariant[case2] sumLen(a.Args, rangeindex + 1) == sumLen(f.Args, rangeindex + 1)
